@@ -1,5 +1,10 @@
 //! C12: matrix views (range, reverse, partition parts, quadrants, tensor round trips) stacked to
 //! any depth over a real `Matrix<i64>`.  Case language: see coq/theories/Run/RunC12.v.
+#[path = "c11.rs"]
+mod history;
+#[path = "c12/tbuild.rs"]
+mod tbuild;
+
 use crate::guarded;
 use crate::sx::*;
 use easy_ml::differentiation::RecordMatrix;
@@ -105,6 +110,7 @@ fn shape2_sx(shape: &[(&'static str, usize); 2]) -> Sx {
 
 /// Why a stack could not be built: the result line to print.
 enum Refused {
+    Line(Sx),
     Panicked,
     Shape(Sx),
     Inconsistent(i64),
@@ -216,6 +222,7 @@ fn with_stack<R>(
 
 fn refused_sx(r: Refused) -> Sx {
     match r {
+        Refused::Line(line) => line,
         Refused::Panicked => panicked(),
         Refused::Shape(s) => err(s),
         Refused::Inconsistent(code) => inconsistent(code),
@@ -507,6 +514,98 @@ fn view_case(args: &[Sx]) -> Sx {
     ok(l(vec![size, l(ps), l(it), l(flags.into_iter().map(|b| z(if b { 0 } else { 2 })).collect()), after]))
 }
 
+/// A stack over MatrixRefTensor::from(a 2-dimensional tensor view built by the C02 interpreter);
+/// returns what `f` returns and the leaves' data (in term order, flattened) after the view is gone.
+fn with_tensor_stack<R>(
+    term: &Sx,
+    wrappers: &[Wrapper],
+    f: impl FnOnce(&mut MatrixView<i64, Erased>) -> R,
+) -> Result<(R, Sx), Refused> {
+    let mut arena = tbuild::Arena::new();
+    let built = tbuild::build(term, &mut arena).map_err(Refused::Line)?;
+    let tbuild::DynView::D2(tensor_view) = built else { return Err(Refused::Line(bad_case())) };
+    let bottom: Erased = Erased(Box::new(MatrixRefTensor::from(tensor_view)));
+    let top = wrap(bottom, wrappers)?;
+    let mut view = MatrixView::from(top);
+    let r = f(&mut view);
+    drop(view);
+    let mut flat = vec![];
+    if let Some(leaves) = arena.dump().list() {
+        for leaf in leaves {
+            flat.extend(leaf.list().unwrap_or(&[]).iter().cloned());
+        }
+    }
+    Ok((r, l(flat)))
+}
+
+fn tensor_view_case(args: &[Sx]) -> Sx {
+    let term = &args[1];
+    let mut ids = vec![];
+    if !tbuild::leaf_ids(term, &mut ids) {
+        return bad_case();
+    }
+    let mut sorted = ids.clone();
+    sorted.sort();
+    sorted.dedup();
+    if sorted.len() != ids.len() {
+        return bad_case();
+    }
+    let (Some(ws), Some(probes), Some(writes)) = (
+        args[2].list().and_then(|v| v.iter().map(wrapper).collect::<Option<Vec<_>>>()),
+        args[3].pairs_usize(),
+        args[4].list().and_then(|v| {
+            v.iter()
+                .map(|w| {
+                    let w = w.list()?;
+                    if w.len() != 3 {
+                        return None;
+                    }
+                    Some((w[0].usize()?, w[1].usize()?, w[2].i64()?))
+                })
+                .collect::<Option<Vec<_>>>()
+        }),
+    ) else {
+        return bad_case();
+    };
+    let reads = with_tensor_stack(term, &ws, |view| -> Result<(Sx, Vec<Sx>, Vec<Sx>), i64> {
+        let (rows, columns) = view.size();
+        let mut ps = vec![];
+        for &(r, c) in &probes {
+            ps.push(probe_sx(probe(view, r, c)?));
+        }
+        let it = iterate(view)?;
+        Ok((l(vec![z(rows), z(columns)]), ps, it))
+    });
+    let (size, ps, it) = match reads {
+        Err(r) => return refused_sx(r),
+        Ok((Err(code), _)) => return inconsistent(code),
+        Ok((Ok(x), _)) => x,
+    };
+    let mut canonical: Option<(Vec<bool>, Sx)> = None;
+    for form in 0..4 {
+        let done = with_tensor_stack(term, &ws, |view| {
+            writes.iter().map(|&(r, c, x)| write_through(view, form, r, c, x)).collect::<Vec<bool>>()
+        });
+        let (flags, after) = match done {
+            Err(r) => return refused_sx(r),
+            Ok(x) => x,
+        };
+        match &canonical {
+            None => canonical = Some((flags, after)),
+            Some((f0, a0)) => {
+                if *f0 != flags || *a0 != after {
+                    return inconsistent(1290 + form as i64);
+                }
+            }
+        }
+        if writes.is_empty() {
+            break;
+        }
+    }
+    let (flags, after) = canonical.unwrap();
+    ok(l(vec![size, l(ps), l(it), l(flags.into_iter().map(|b| z(if b { 0 } else { 2 })).collect()), after]))
+}
+
 fn part_listing(part: &mut MatrixView<i64, MatrixPart<i64>>) -> Result<Sx, i64> {
     let (rows, columns) = part.size();
     let mut cells = vec![];
@@ -530,9 +629,25 @@ fn part_listing(part: &mut MatrixView<i64, MatrixPart<i64>>) -> Result<Sx, i64> 
 
 fn partition_case(args: &[Sx], quadrants: bool) -> Sx {
     let Some(m0) = root(&args[1..4]) else { return bad_case() };
+    partition_of(m0, &args[4], &args[5], quadrants)
+}
+
+/// `(12 5 start ops rp cp)`: partition the matrix a C11 history ends with.
+fn partition_after_history(args: &[Sx]) -> Sx {
+    let Some(last) = history::final_matrix(&args[1], &args[2]) else { return bad_case() };
+    let Some(m0) = last else { return l(vec![z(3)]) };
+    let (rows, columns) = m0.size();
+    let listing = partition_of(m0, &args[3], &args[4], false);
+    match listing.list().and_then(|v| v.first()).and_then(|x| x.i64()) {
+        Some(0) | Some(2) => l(vec![z(0), l(vec![l(vec![z(rows), z(columns)]), listing])]),
+        _ => listing,
+    }
+}
+
+fn partition_of(m0: Matrix<i64>, a: &Sx, b: &Sx, quadrants: bool) -> Sx {
     let mut m = m0.clone();
     let listing = if quadrants {
-        let (Some(r), Some(c)) = (args[4].usize(), args[5].usize()) else { return bad_case() };
+        let (Some(r), Some(c)) = (a.usize(), b.usize()) else { return bad_case() };
         let mref = &mut m;
         let parts = guarded(move || mref.partition_quadrants(r, c))
             .map(|q| vec![q.top_left, q.top_right, q.bottom_left, q.bottom_right]);
@@ -552,7 +667,7 @@ fn partition_case(args: &[Sx], quadrants: bool) -> Sx {
         drop(plain);
         parts_result_wrapper(parts)
     } else {
-        let (Some(rp), Some(cp)) = (args[4].usizes(), args[5].usizes()) else { return bad_case() };
+        let (Some(rp), Some(cp)) = (a.usizes(), b.usizes()) else { return bad_case() };
         let mref = &mut m;
         let (rp2, cp2) = (rp.clone(), cp.clone());
         let parts = guarded(move || mref.partition(&rp2, &cp2));
@@ -599,6 +714,8 @@ pub fn run(args: &[Sx]) -> Sx {
         Some(1) if args.len() == 8 => view_case(args),
         Some(2) if args.len() == 6 => partition_case(args, false),
         Some(3) if args.len() == 6 => partition_case(args, true),
+        Some(5) if args.len() == 5 => partition_after_history(args),
+        Some(6) if args.len() == 5 => tensor_view_case(args),
         _ => bad_case(),
     }
 }
